@@ -93,7 +93,7 @@ var keywordSpec = map[string]string{
 var parserUnwrittenOK = map[string]string{}
 
 func runC02(c *core.Ctx) {
-	c.Explanation = "Structural necessary conditions of grammar-conformant parsing, decided by constant extraction and dominance on the SSA of parser/lexer/token: (prec.table) the compiled-in precedence map assigns every operator token to the binding-power class the property states, and the class constants are strictly ordered OR < AND < REGEX < EQUALS < LESS_GREATER < CONCAT < PREFIX (relations are compared, not numbers); (prec.pratt) ParseExpression continues its loop on the strict comparison `precedence < peekPrecedence()` with the caller's power on the smaller side (left associativity), curPrecedence/peekPrecedence index the table with the current/peek token, and every call of ParseExpression passes LOWEST, except ParsePrefixExpression (PREFIX) and the two infix parsers (the operator's own power taken before the token is advanced); (prec.register) the prefix/infix/postfix tables map each token to the parser function the grammar requires, explicit `+` is the only explicit concatenation, and every token with a binding power has a handler; (lex.operators) each operator spelling reaches newToken with its own token type (case chains on l.char/peekChar); (lex.keywords) keyword spellings map to their token constants; (dispatch) Parse/ParseStatement dispatch each first token to its parser, ParseSnippetVCL agrees with ParseStatement wherever both dispatch; (fields) every semantic field of every node kind the parser builds is stored somewhere in the parser; (escape) escape decoding is reachable only from ParseString under the double-quote test. The token-advance test of the infix parsers is may-precede (an advance on any path to the read spoils it); escape decoding depends on the double-quote test and at most on a `contains %` test; (dup.case) the duplicate-case rejection depends on both operator and label."
+	c.Explanation = "Structural necessary conditions of grammar-conformant parsing, decided by constant extraction and dominance on the SSA of parser/lexer/token: (prec.table) the compiled-in precedence map assigns every operator token to the binding-power class the property states, and the class constants are strictly ordered OR < AND < REGEX < EQUALS < LESS_GREATER < CONCAT < PREFIX (relations are compared, not numbers); (prec.pratt) ParseExpression continues its loop on the strict comparison `precedence < peekPrecedence()` with the caller's power on the smaller side (left associativity), curPrecedence/peekPrecedence index the table with the current/peek token, and every call of ParseExpression passes LOWEST, except ParsePrefixExpression (PREFIX) and the two infix parsers (the operator's own power taken before the token is advanced); (prec.register) the prefix/infix/postfix tables map each token to the parser function the grammar requires, explicit `+` is the only explicit concatenation, and every token with a binding power has a handler; (lex.operators) each operator spelling reaches newToken with its own token type (case chains on l.char/peekChar); (lex.keywords) keyword spellings map to their token constants; (dispatch) Parse/ParseStatement dispatch each first token to its parser, ParseSnippetVCL agrees with ParseStatement wherever both dispatch; (fields) every semantic field of every node kind the parser builds is stored somewhere in the parser; (escape) escape decoding is reachable only from ParseString under the double-quote test. The token-advance test of the infix parsers is may-precede (an advance on any path to the read spoils it); escape decoding depends on the double-quote test and at most on a `contains %` test; (dup.case) the duplicate-case rejection depends on both operator and label; (lex.step) every path around a scanning loop of the lexer consumes exactly one character, so each character is examined as the possible start of the terminator; (escape.bytes) no byte of the source text is converted to a string by code point (string(b) re-encodes bytes >= 0x80 as two bytes) unless constant or bounded below 0x80."
 	c.NotCovered = []string{"literal values (strconv results, RTIME suffix arithmetic, escape decoding results)", "operand order inside a node and 'exactly once, in source order' as value properties", "whitespace/comment placement handled by the lexer between tokens"}
 	prog := c.Prog
 	pp, tp := prog.Pkg("parser"), prog.Pkg("token")
@@ -429,6 +429,8 @@ func runC02(c *core.Ctx) {
 	checkParserFields(c)
 	checkEscapeReach(c)
 	checkDuplicateCase(c)
+	checkByteTranscode(c)
+	checkScanStep(c, "lex.step", nil, 10)
 }
 
 // closureTarget: the Parser method a registered closure (or bound method wrapper) calls, and the constant bool it passes (if any).
@@ -896,4 +898,126 @@ func checkDuplicateCase(c *core.Ctx) {
 	if n == 0 {
 		c.Discharge("dup.case", "ParseSwitchStatement|none", fn.Pos(), "no duplicate-case rejection (nothing valid can be refused by it)")
 	}
+}
+
+// checkByteTranscode (escape.bytes): string(b) for a byte b encodes the code point U+00b as UTF-8 - for b >= 0x80 that is
+// two bytes, not the byte read. A byte taken from the source text (ReadByte, indexing a string or []byte) must be
+// copied with WriteByte / a slice, never converted by code point, or multi-byte characters of a literal are re-encoded
+// byte by byte (Latin-1 mojibake). Decided for the lexer and the parser: every uint8→string and uint8→rune→string
+// conversion has a constant operand or an operand bounded below 0x80 by a dominating comparison.
+func checkByteTranscode(c *core.Ctx) {
+	prog := c.Prog
+	n := 0
+	perFn := map[*ssa.Function]int{}
+	for _, fn := range prog.ModuleFuncs("lexer", "parser", "token") {
+		for _, b := range fn.Blocks {
+			for _, in := range b.Instrs {
+				cv, ok := in.(*ssa.Convert)
+				if !ok {
+					continue
+				}
+				if bt, ok := cv.Type().Underlying().(*types.Basic); !ok || bt.Kind() != types.String {
+					continue
+				}
+				// operand: an integer; look through integer widenings to the original value
+				x := cv.X
+				for {
+					if inner, ok := x.(*ssa.Convert); ok {
+						if ib, ok := inner.X.Type().Underlying().(*types.Basic); ok && ib.Info()&types.IsInteger != 0 {
+							x = inner.X
+							continue
+						}
+					}
+					break
+				}
+				xb, ok := x.Type().Underlying().(*types.Basic)
+				if !ok || xb.Kind() != types.Uint8 {
+					continue
+				}
+				n++
+				perFn[fn]++
+				key := core.FnName(fn) + "|string(byte)#" + fmt.Sprint(perFn[fn])
+				if _, isConst := x.(*ssa.Const); isConst {
+					c.Discharge("escape.bytes", key, in.Pos(), "constant operand")
+					continue
+				}
+				if asciiBounded(x, b) {
+					c.Discharge("escape.bytes", key, in.Pos(), "operand bounded below 0x80 by a dominating comparison")
+					continue
+				}
+				c.Report("escape.bytes", key, in.Pos(), fmt.Sprintf("%s converts a byte to a string by code point (string(b)): a byte >= 0x80 of the source text becomes a two-byte sequence, so a multi-byte character read byte by byte is re-encoded as Latin-1 and the literal value differs from the text written", core.FnName(fn)))
+			}
+		}
+	}
+	if n == 0 {
+		c.Discharge("escape.bytes", "none", token.NoPos, "lexer and parser contain no byte→string conversion by code point")
+	}
+}
+
+// asciiBounded: a comparison of x with a constant dominates block b on the edge that implies x < 0x80.
+func asciiBounded(x ssa.Value, b *ssa.BasicBlock) bool {
+	if x.Referrers() == nil {
+		return false
+	}
+	for _, r := range *x.Referrers() {
+		bo, ok := r.(*ssa.BinOp)
+		if !ok || bo.Referrers() == nil {
+			continue
+		}
+		// (x & m) == 0 with bit 7 in m
+		if bo.Op == token.AND {
+			m, isK := core.ConstIntValue(bo.Y)
+			if !isK {
+				m, isK = core.ConstIntValue(bo.X)
+			}
+			if isK && m&0x80 != 0 && m&^0xff == 0 {
+				for _, r2 := range *bo.Referrers() {
+					cmp, ok := r2.(*ssa.BinOp)
+					if !ok || (cmp.Op != token.EQL && cmp.Op != token.NEQ) || cmp.Referrers() == nil {
+						continue
+					}
+					z, isZ := core.ConstIntValue(cmp.Y)
+					if !isZ {
+						z, isZ = core.ConstIntValue(cmp.X)
+					}
+					if !isZ || z != 0 {
+						continue
+					}
+					for _, rr := range *cmp.Referrers() {
+						if iff, ok := rr.(*ssa.If); ok {
+							idx := 0
+							if cmp.Op == token.NEQ {
+								idx = 1
+							}
+							if core.EdgeDominates(iff.Block(), idx, b) {
+								return true
+							}
+						}
+					}
+				}
+			}
+			continue
+		}
+		k, left := int64(0), true
+		if kv, ok := core.ConstIntValue(bo.Y); ok && bo.X == x {
+			k = kv
+		} else if kv, ok := core.ConstIntValue(bo.X); ok && bo.Y == x {
+			k, left = kv, false
+		} else {
+			continue
+		}
+		for _, rr := range *bo.Referrers() {
+			iff, ok := rr.(*ssa.If)
+			if !ok {
+				continue
+			}
+			for idx, edgeTrue := range []bool{true, false} {
+				_, hi, excl, ok := intervalOf(bo.Op, k, edgeTrue, left)
+				if ok && excl == nil && hi < 0x80 && core.EdgeDominates(iff.Block(), idx, b) {
+					return true
+				}
+			}
+		}
+	}
+	return false
 }
